@@ -283,6 +283,10 @@ RULES = [
 ]
 
 
+from . import shared
+RULES = RULES + shared.bundle('C13', ['norm', 'values'], ['modelinfo'])
+
+
 def run(tier="quick", replay=None):
     return run_check(
         "C13", RULES, tier=tier, replay=replay,
